@@ -2,12 +2,13 @@
    The inventory (coq/gen/Writes.v) is regenerated from the two source files on every run: every assignment to or deletion of an
    attribute or item, and every use of a mutating method, whose receiver is not a local variable bound only to freshly made
    objects; module-level names bound to mutable containers; module-level statements that assign through an attribute or item or
-   call a mutating method; decorators other than classmethod / staticmethod / property / total_ordering (a decorator can keep state
+   call a mutating method; a write through a parameter is followed to the call sites of the function (it disappears where the
+   argument is a fresh local, moves on where it is a parameter of the caller, is listed at the call site otherwise); decorators other than classmethod / staticmethod / property / total_ordering (a decorator can keep state
    between calls); class attributes bound to anything but constants; reflective writes.
    The policy below says where such statements may stand for the thread model (Model/Threads.v) and the history model
    (Model/History.v) to be models of this code: in the functions that build a tokenizer before it is published (their order is
-   the subject of gen/ThreadProg.v), in the statement that publishes it, and in four places that work on a list or set the same
-   call chain has just made. A query therefore shares nothing with another call but the published tokenizer, which no statement
+   the subject of gen/ThreadProg.v), in the statement that publishes it, and in three places that work on a list or set the same
+   call has just made. A query therefore shares nothing with another call but the published tokenizer, which no statement
    outside the builders writes to, and never writes to its arguments. *)
 From Coq Require Import String List Bool.
 Import ListNotations.
@@ -32,10 +33,9 @@ Definition write_allowed (w : write) : bool :=
   else in_list f builders
        (* filling the local tokenizer, then the publication *)
        || (String.eqb f "Licensing.get_advanced_tokenizer" && in_list t ["self.advanced_tokenizer"; "tokenizer.add"])
-       (* matched = deque(matched): the call's own copy *)
-       || (String.eqb f "Trie.tokenize" && in_list t ["matched.popleft"])
-       (* tokens = Token.sort(tokens): the sorted copy (Token.sort is a static method, not list.sort) *)
-       || (String.eqb f "filter_overlapping" && in_list t ["tokens[i]"; "tokens[j]"; "Token.sort"])
+       (* matched = list(self.iter(...)), then the list filter_overlapping returns (whose deletions are followed to this call
+          site), then matched = deque(matched): all made by this call *)
+       || (String.eqb f "Trie.tokenize" && in_list t ["matched.popleft"; "matched to filter_overlapping"])
        (* aliases = set(...) of the entry being validated *)
        || (String.eqb f "validate_symbols" && in_list t ["aliases.add"])
        (* a read of the instance dictionary for the repr *)
